@@ -14,8 +14,18 @@ def one(d):
     try:
         shutil.copytree("/repo", copy, ignore=shutil.ignore_patterns(".git", "__pycache__", "*.pyc"))
         r = subprocess.run(["patch", "-p1", "-s", "-d", copy, "-i", os.path.join(d, "patch.diff")], capture_output=True, text=True)
+        base = None
         if r.returncode != 0:
-            return key, "NOAPPLY", []
+            # written against an earlier /repo HEAD (before a later fix: commit touched the same lines): evaluate there
+            base = json.load(open(os.path.join(d, "meta.json"))).get("base_commit", "353227e")
+            shutil.rmtree(copy)
+            os.makedirs(copy)
+            a = subprocess.Popen(["git", "-C", "/repo", "archive", base], stdout=subprocess.PIPE)
+            subprocess.run(["tar", "-x", "-C", copy], stdin=a.stdout, check=True)
+            a.wait()
+            r = subprocess.run(["patch", "-p1", "-s", "-d", copy, "-i", os.path.join(d, "patch.diff")], capture_output=True, text=True)
+            if r.returncode != 0:
+                return key, "NOAPPLY", []
         env = dict(os.environ, PYTHONPATH=copy + os.pathsep + HERE, MHLVERIF_REPO=copy, PYTHONDONTWRITEBYTECODE="1")
         r = subprocess.run([os.path.join(HERE, "check"), pid, "--tier", "quick"], env=env, stdout=subprocess.PIPE, stderr=subprocess.STDOUT, text=True)
         viol = [l[:160] for l in r.stdout.splitlines() if l.startswith("violation:")][:4]
@@ -23,6 +33,9 @@ def one(d):
         mp = os.path.join(d, "meta.json")
         m = json.load(open(mp))
         m.setdefault("checks_quick", {})[pid] = {"exit": r.returncode, "result": res, "clauses": viol}
+        if base:
+            m["checks_quick"][pid]["evaluated_on_repo_commit"] = base
+            m["note_base"] = "the patch no longer applies to /repo HEAD (a later fix: commit rewrote the same lines); it is evaluated on a copy of commit %s" % base
         json.dump(m, open(mp, "w"), indent=1)
         return key, res, viol
     finally:
